@@ -160,9 +160,9 @@ def run(R, env):
                     good, why = False, "total_native_token not updated from the loaded state"
                     continue
                 # := checked_sub(loaded, U).unwrap_or(..)  == "-= U"
-                cs = [s for s in subterms(v) if s[0] == "call" and s[1] == "cosmwasm_std::Uint128::checked_sub"]
-                if len(cs) == 1 and loaded_field(prog, cs[0][2][0], "state", ["total_native_token"], CRATE):
-                    subtracted.append(cs[0][2][1])
+                u_ = minus_operand(v, lambda b_: loaded_field(prog, b_, "state", ["total_native_token"], CRATE))
+                if u_ is not None:
+                    subtracted.append(u_)
                 else:
                     good, why = False, "total_native_token := %s" % fmt(v)[:160]
             R.ob("C01.R3", "SubmitBatch:state-delta", good, "state saved by SubmitBatch: " + why, loc=op["loc"], fn=hk)
